@@ -113,12 +113,12 @@ def parse_list(t, f=lambda x: x):
 
 
 class Step:
-    __slots__ = ("idx", "op", "optoks", "intx", "aborted", "res", "msgs", "st", "q", "fn", "lines", "pre", "post")
+    __slots__ = ("idx", "op", "optoks", "intx", "aborted", "res", "msgs", "st", "q", "fn", "lines", "pre", "post", "note", "tx")
 
     def __init__(self):
         self.idx = 0; self.op = ""; self.optoks = []; self.intx = False; self.aborted = False
         self.res = None; self.msgs = []; self.st = None; self.q = []; self.fn = None; self.lines = []
-        self.pre = None; self.post = None
+        self.pre = None; self.post = None; self.note = None; self.tx = 0
 
 
 def parse_state(lines):
@@ -170,13 +170,15 @@ def parse_history(op_lines, obs_lines):
             continue
         by_step.setdefault(int(sp[0][1:]), []).append(sp[1:])
     steps = []; idx = 0; intx = False; txsteps = []
-    committed = None; working = None
+    committed = None; working = None; note = None; txid = 0
     for l in op_lines[1:]:
         t = [x for x in l.split(" ") if x]
         if not t:
             continue
+        if t[0] == "#":
+            note = t[1:]; continue
         if t[0] == "tx_begin":
-            intx = True; txsteps = []; working = committed; continue
+            intx = True; txsteps = []; working = committed; txid += 1; continue
         if t[0] == "tx_commit":
             intx = False; committed = working; continue
         if t[0] == "tx_abort":
@@ -187,7 +189,7 @@ def parse_history(op_lines, obs_lines):
         if t[0].startswith("#") or t[0] == "cfg":
             continue
         idx += 1
-        s = Step(); s.idx = idx; s.op = l; s.optoks = t; s.intx = intx
+        s = Step(); s.idx = idx; s.op = l; s.optoks = t; s.intx = intx; s.note = note; note = None; s.tx = txid if intx else 0
         stl = []
         for o in by_step.get(idx, []):
             s.lines.append(o)
